@@ -24,8 +24,9 @@ THEOREMS = [
     "C20_http_status_same_refuted",
     "C20_http_status_outside_known",
 ]
-RULE = ("ColumnBatch streams built with the real BatchPool (schemas over every logical type name of logical_to_arrow_type plus unknown, "
-        "prefix and near-miss names; cells of every ScalarValue variant in every column type: nulls, i64/u64 limits, 2^53 neighbours, "
+RULE = ("ColumnBatch streams built with the real BatchPool (schemas over every logical type name that either copy of logical_to_arrow_type "
+        "mentions or the engine assigns to a column - read from the Rust text on every run - plus unknown, prefix and near-miss names, each "
+        "emitted as a whole batch and partially; cells of every ScalarValue variant in every column type: nulls, i64/u64 limits, 2^53 neighbours, "
         "integral / subnormal / non-finite floats, numeric-looking, boolean-looking, whitespace-padded, non-ASCII and JSON-document "
         "strings, binary) x batch splits incl. empty batches x event_id columns with duplicate / negative / textual / null ids x "
         "LIMIT / OFFSET in {absent, 0, 1, small, beyond the end} x streaming_batch_size in {0, 1, 3, 1000} (one harness process group per "
@@ -55,15 +56,96 @@ MANIFEST = {
  "level_note": "Trusted: Coq kernel; p50_render.py; ExtrOcamlBasic extraction + OCaml driver; the Rust harness and three add-only hooks; CPython json and arrow-ipc StreamReader as decoders. serde_json's document reading, f64 parsing and printing are inputs of the model. Engine-level production of the mixed-kind cells is not part of this check."
 }
 
-TYPE_NAMES = ["Integer", "Number", "Float", "Boolean", "Timestamp", "String", "JSON", "Object", "Array",
-              "UInt64", "UInt8", "UInt", "Binary", "Null", "Datetime", "integer", "Uint64", "Int", "Floa", "Floats", "x"]
-INT_TYPES = {"Integer", "Number"}
+# ------------------------------------------------------------------ logical type names: read from the Rust text
+# Every name that either copy of logical_to_arrow_type mentions (exact arms, and for a prefix arm the bare prefix and two
+# completions), every name the engine itself assigns to a column (field_type_to_logical, logical_type_for_builtin, the
+# aggregate / sequence schema builders: string literals assigned to `logical_type`), plus near-miss and unknown names.
+# A name added to one table only (the two copies drifting apart) is generated automatically, for whole-batch and partial
+# emissions; the oracle then compares the Arrow rows with the JSON rows for it like for every other name.
+FALLBACK_NAMES = ["Integer", "Number", "Float", "Boolean", "Timestamp", "String", "JSON", "Object", "Array", "UInt64"]
+NEAR_MISS = ["UInt8", "UInt", "Binary", "Null", "Datetime", "integer", "Uint64", "Int", "Floa", "Floats", "x", "Optional(Integer)", "Enum(a|b)"]
+ARROW_OF = {"DataType::Int64": "Int64", "DataType::Float64": "Float64", "DataType::Boolean": "Boolean",
+            "DataType::Timestamp(TimeUnit::Millisecond, None)": "TimestampMs", "DataType::LargeUtf8": "LargeUtf8"}
+
+
+def _read_repo(rel):
+    try:
+        return open(os.path.join(vlib.REPO, rel), encoding="utf-8").read()
+    except OSError:
+        return ""
+
+
+def _table(src):
+    """(exact {name: arrow type}, [(prefix, arrow type)], default) of one logical_to_arrow_type"""
+    import re
+    m = re.search(r"fn\s+logical_to_arrow_type[^{]*\{\s*match\s+logical_type\s*\{(.*?)\n\s*\}\s*\n\}", src, re.S)
+    exact, pref, dflt = {}, [], "LargeUtf8"
+    if not m:
+        return exact, pref, dflt
+    body = re.sub(r"//[^\n]*", "", m.group(1))
+    for arm in re.finditer(r"((?:\"[^\"]*\"\s*\|?\s*)+|other\s+if\s+other\.starts_with\(\"([^\"]*)\"\)|_)\s*=>\s*(DataType::\w+(?:\([^)]*\))?),", body):
+        pat, pfx, ty = arm.group(1).strip(), arm.group(2), ARROW_OF.get(arm.group(3).strip(), "LargeUtf8")
+        if pat == "_":
+            dflt = ty
+        elif pfx is not None:
+            pref.append((pfx, ty))
+        else:
+            for name in re.findall(r"\"([^\"]*)\"", pat):
+                exact.setdefault(name, ty)
+    return exact, pref, dflt
+
+
+def _load_types():
+    import re
+    ta = _table(_read_repo("src/shared/response/arrow.rs"))
+    tb = _table(_read_repo("src/engine/core/read/flow/batch.rs"))
+    names = []
+    for exact, pref, _ in (ta, tb):
+        names += list(exact)
+        for p, _t in pref:
+            names += [p + "64", p, p + "8"]
+    produced = []
+    for rel in ("src/engine/core/read/flow/operators/memtable_source.rs",):
+        src = _read_repo(rel)
+        for fn in ("field_type_to_logical", "logical_type_for_builtin"):
+            m = re.search(r"fn\s+" + fn + r"\b.*?\n\}", src, re.S)
+            if m:
+                produced += re.findall(r"=>\s*\"(\w+)\"\.into\(\)", m.group(0))
+    for rel in ("src/engine/core/read/flow/operators/agg/schema_builder.rs", "src/engine/core/read/result.rs",
+                "src/engine/query/execution_engine.rs", "src/command/handlers/query/merge/sequence_stream.rs"):
+        produced += re.findall(r"logical_type:\s*\"(\w+)\"\.to_string\(\)", _read_repo(rel))
+    core = []
+    for n in names + produced:
+        if n and n not in core:
+            core.append(n)
+    if not core:
+        core = list(FALLBACK_NAMES)
+    return core, ta, tb
+
+
+CORE_NAMES, TABLE_SCHEMA, TABLE_BATCH = _load_types()
+TYPE_NAMES = CORE_NAMES + [n for n in NEAR_MISS if n not in CORE_NAMES]
+
+
+def _lookup(tbl, name):
+    exact, pref, dflt = tbl
+    if name in exact:
+        return exact[name]
+    for p, t in pref:
+        if name.startswith(p):
+            return t
+    return dflt
 
 
 def atype(name):
-    if name in INT_TYPES or name.startswith("UInt"):
-        return "Int64"
-    return {"Float": "Float64", "Boolean": "Boolean", "Timestamp": "TimestampMs"}.get(name, "LargeUtf8")
+    """Arrow type of the stream schema (arrow.rs table); see atype_batch for the whole-batch arrays"""
+    return _lookup(TABLE_SCHEMA, name) if TABLE_SCHEMA[0] else \
+        ("Int64" if name in ("Integer", "Number") or name.startswith("UInt") else
+         {"Float": "Float64", "Boolean": "Boolean", "Timestamp": "TimestampMs"}.get(name, "LargeUtf8"))
+
+
+def atype_batch(name):
+    return _lookup(TABLE_BATCH, name) if TABLE_BATCH[0] else atype(name)
 
 
 def corpus():
@@ -325,7 +407,8 @@ def gen_cell(rng, kind=None):
 
 
 def matching_kind(rng, tname):
-    a = atype(tname)
+    # aim at the declared type; when the two tables type the name differently, aim at either
+    a = atype(tname) if rng.chance(1, 2) else atype_batch(tname)
     if rng.chance(1, 6):
         return 0
     return {"Int64": rng.choice([2, 4]), "TimestampMs": rng.choice([4, 2]), "Float64": 3, "Boolean": 1,
@@ -346,7 +429,7 @@ def gen_schema(rng, with_id):
         while nm in used:
             nm = nm + "_"
         used.add(nm)
-        cols.append((nm, rng.choice(TYPE_NAMES[:9]) if rng.chance(3, 4) else rng.choice(TYPE_NAMES)))
+        cols.append((nm, rng.choice(CORE_NAMES) if rng.chance(3, 4) else rng.choice(TYPE_NAMES)))
     if with_id:
         pos = rng.below(len(cols) + 1)
         cols.insert(pos, ("event_id", rng.choice(["Integer", "Number", "Integer", "String", "UInt64", "Float"])))
@@ -403,7 +486,7 @@ def gen_run(rng, tier_big):
 
 def gen_enc(rng, typed):
     ncol = rng.range(1, 3)
-    cols = [(f"c{i}", rng.choice(TYPE_NAMES[:10]) if rng.chance(4, 5) else rng.choice(TYPE_NAMES)) for i in range(ncol)]
+    cols = [(f"c{i}", rng.choice(CORE_NAMES) if rng.chance(4, 5) else rng.choice(TYPE_NAMES)) for i in range(ncol)]
     nr = rng.range(1, 5)
     rows = []
     for _ in range(nr):
@@ -438,13 +521,26 @@ def cases(rng, tier):
     quick = tier == "quick"
     out = []
     # every (column type, cell kind) combination, both Arrow paths
-    for ty in TYPE_NAMES[:10]:
+    for ty in CORE_NAMES:
         for kind in range(8):
             for _ in range(3 if quick else 40):
                 cell = gen_cell(rng, kind)
                 other = gen_cell(rng, matching_kind(rng, ty))
                 out.append({"kind": "cell_whole", "line": f"render_enc W {cols_tok([('c', ty)])} {cell};{other}"})
                 out.append({"kind": "cell_row", "line": f"render_enc 0 {cols_tok([('c', ty)])} {cell};{other}"})
+    # every logical type name through the real writer: the whole batch emitted (to_record_batch, batch.rs table) and a
+    # partial emission (LIMIT / OFFSET / a duplicate event id -> row indices, arrow.rs table), with cells of the matching kind
+    for ty in TYPE_NAMES:
+        for rep in range(1 if quick else 6):
+            rows = [gen_cell(rng, matching_kind(rng, ty)) for _ in range(3)]
+            body = ";".join(rows)
+            ct = cols_tok([("v", ty)])
+            bs = rng.choice(["0", "1000"])
+            out.append({"kind": "type_whole", "line": f"render_run q {bs} - - {ct} {body}"})
+            out.append({"kind": "type_partial", "line": f"render_run q {bs} 2 - {ct} {body}"})
+            out.append({"kind": "type_partial", "line": f"render_run {rng.choice(['q', 's0n'])} {bs} 5 1 {ct} {body}"})
+            ids = ";".join(f"{tok_int(i)},{c}" for i, c in zip([1, 1, 2], rows))
+            out.append({"kind": "type_partial", "line": f"render_run q {bs} - - {cols_tok([('event_id', 'Integer'), ('v', ty)])} {ids}"})
     for s in STR_EDGES:
         for ty in ("String", "Integer", "Float", "Boolean", "Timestamp", "JSON"):
             out.append({"kind": "cell_str", "line": f"render_enc {rng.choice(['W', '0'])} {cols_tok([('c', ty)])} {tok_str(s)}"})
@@ -669,7 +765,11 @@ def failing(c, impl):
             out.append((0, 0, f"HTTP status derived from the error body differs: json {j['H']} text {t['H']} arrow {a['H']} (body status {j['S']})"))
         return out
     if "ERR" in impl:
-        return [(None, None, f"an encoder failed: {impl[:200]}")]
+        J = json_rows(js) if "ERR" not in js else None
+        n = (len(J[1]) + len(J[2])) if J else "?"
+        which = [nm for nm, sec in (("JSON", js), ("text", ts), ("Arrow", ars)) if "ERR" in sec]
+        return [(None, None, f"the {'/'.join(which)} encoding of this result failed ({ars if 'ERR' in ars else js}) while "
+                             f"{'the JSON stream carries ' + str(n) + ' row(s)' if 'JSON' not in which else 'another encoding succeeded'}: {impl[:160]}")]
     J, T, A = json_rows(js), json_rows(ts), arrow_rows(ars)
     if J is None or T is None or A is None:
         return [(None, None, f"undecodable frame in {impl[:200]}")]
